@@ -408,6 +408,85 @@ pub(crate) enum MergeDirection {
 	Backward,
 }
 
+/// The entries of one source, copied out and sorted by a comparator other than the
+/// one the source is ordered by.
+struct ReorderedEntries {
+	entries: Vec<(Vec<u8>, Vec<u8>)>,
+	pos: Option<usize>,
+	cmp: Arc<dyn Comparator>,
+}
+
+impl ReorderedEntries {
+	fn collect<I: LSMIterator>(mut source: I, cmp: Arc<dyn Comparator>) -> Result<Self> {
+		let mut entries = Vec::new();
+		source.seek_first()?;
+		while source.valid() {
+			entries.push((source.key().encoded().to_vec(), source.value_encoded()?.to_vec()));
+			source.next()?;
+		}
+		entries.sort_by(|a, b| cmp.compare(&a.0, &b.0));
+		Ok(Self {
+			entries,
+			pos: None,
+			cmp,
+		})
+	}
+
+	fn position(&mut self, pos: usize) -> Result<bool> {
+		self.pos = if pos < self.entries.len() {
+			Some(pos)
+		} else {
+			None
+		};
+		Ok(self.pos.is_some())
+	}
+}
+
+impl LSMIterator for ReorderedEntries {
+	fn seek(&mut self, target: &[u8]) -> Result<bool> {
+		let pos = self.entries.partition_point(|e| self.cmp.compare(&e.0, target) == Ordering::Less);
+		self.position(pos)
+	}
+
+	fn seek_first(&mut self) -> Result<bool> {
+		self.position(0)
+	}
+
+	fn seek_last(&mut self) -> Result<bool> {
+		let last = self.entries.len().wrapping_sub(1);
+		self.position(last)
+	}
+
+	fn next(&mut self) -> Result<bool> {
+		match self.pos {
+			Some(pos) => self.position(pos + 1),
+			None => Ok(false),
+		}
+	}
+
+	fn prev(&mut self) -> Result<bool> {
+		match self.pos {
+			Some(pos) if pos > 0 => self.position(pos - 1),
+			_ => {
+				self.pos = None;
+				Ok(false)
+			}
+		}
+	}
+
+	fn valid(&self) -> bool {
+		self.pos.is_some()
+	}
+
+	fn key(&self) -> InternalKeyRef<'_> {
+		InternalKeyRef::from_encoded(&self.entries[self.pos.expect("valid")].0)
+	}
+
+	fn value_encoded(&self) -> Result<&[u8]> {
+		Ok(&self.entries[self.pos.expect("valid")].1)
+	}
+}
+
 /// A merge iterator that sorts by key+seqno.
 /// Uses index-based tracking for zero-allocation iteration.
 pub(crate) struct KMergeIterator<'iter> {
@@ -490,14 +569,22 @@ impl<'a> KMergeIterator<'a> {
 			Bound::Included(_) | Bound::Unbounded => None,
 		};
 
+		// Memtables list the versions of a key newest commit first, the index (and the
+		// merge below) newest timestamp first. The two orders differ once timestamps
+		// are written out of order - which is what the index is there to support -
+		// so the memtable entries in range are brought into timestamp order first.
+
 		// Active memtable
 		let active_iter = state_ref.active.range(lower, upper);
-		iterators.push(Box::new(active_iter) as BoxedLSMIterator<'a>);
+		iterators.push(Box::new(ReorderedEntries::collect(active_iter, Arc::clone(&cmp))?)
+			as BoxedLSMIterator<'a>);
 
 		// Immutable memtables
 		for memtable in &state_ref.immutable {
 			let iter = memtable.range(lower, upper);
-			iterators.push(Box::new(iter) as BoxedLSMIterator<'a>);
+			iterators.push(
+				Box::new(ReorderedEntries::collect(iter, Arc::clone(&cmp))?) as BoxedLSMIterator<'a>
+			);
 		}
 
 		// B+tree versioned index (contains all flushed data with value pointers)
